@@ -361,7 +361,24 @@ def mutate_node(eng, st, recv: OpaqueV, meth, pos, kw, node):
     return None
 
 
+def ser_fn():
+    """Ser(x, indent, addindent, newl): the text written by x.writexml(...) (family contract; contracts/utils.py)."""
+    S = z3.StringSort()
+    return z3.Function("Ser", XNODE.sort(), S, S, S, S)
+
+
 def call_node_method(eng, st, recv: OpaqueV, meth, pos, kw, node):
+    if meth in ("toxml", "toprettyxml"):
+        # minidom Node.toxml() = toprettyxml("", ""); toprettyxml(indent, newl) = writexml(writer, "", indent, newl)
+        eng.trusted_used.add("xml.dom.minidom Node.toxml/toprettyxml: writexml into a StringIO with (\"\", indent, newl)")
+        if meth == "toxml":
+            ind, nl = StrV(""), StrV("")
+        else:
+            ind = kw.get("indent", pos[0] if pos else StrV("\t"))
+            nl = kw.get("newl", pos[1] if len(pos) > 1 else StrV("\n"))
+        if not (isinstance(ind, StrV) and isinstance(nl, StrV)):
+            raise Unsupported("toprettyxml layout argument kind")
+        return [(st, StrV(ser_fn()(recv.t, z3.StringVal(""), ind.t, nl.t)))]
     if meth == "_get_lastChild" and not pos:
         kids = f_kids()(recv.t)
         n = z3.Length(kids)
